@@ -113,6 +113,14 @@ def decisions_correspondence(chk, n=None):
         dist[r] = dist.get(r, 0) + 1
     chk.correspondence("Tank.do_repeat_fill/low/normal/high (REAL methods, stubbed sensor, both level sets, boundary grid + random) vs Model/Tank.lean", len(cases), len(bad), distribution=dist, detail=bad[:5] or None)
     chk.sample({"case": cases[0], "real": real["acts"][0], "model": model[0]})
+    # a poll that neither re-arms nor requests a transition ends the polling of its phase: with the valve open (fill, low) it
+    # stays open and the time limit is never looked at again; in any phase the too-low stop is never reached
+    for (c, r, m) in bad:
+        if r.startswith("?[]/[]"):
+            leaf, h, tis, set_ = c
+            chk.violation(f"tank-poll-stops:{leaf}", f"Tank.do_repeat_{leaf} with level {h / 10:.1f} % ({set_} level set, {tis / 1e6:.0f} s in the phase) neither re-arms its poll nor requests a transition (specified: {m}): the tank controller stops polling" + (" with the mains valve open" if leaf in ("fill", "low") else ""),
+                          {"kind": "tank-poll", "leaf": leaf, "level_tenths": h, "time_in_state_us": tis, "level_set": set_, "real": r, "specified": m})
+            break
     # the configured thresholds must satisfy the validity predicate the theorems assume
     valid = all(cfg["hyst"] >= 0 and cfg["tooLow"] <= cfg[s]["low"] - cfg["hyst"] and cfg[s]["low"] + cfg["hyst"] <= cfg[s]["high"] - cfg["hyst"] for s in ("eco", "overflow"))
     chk.obligation("config.ini thresholds satisfy Valid (too_low ≤ low − hyst, low + hyst ≤ high − hyst) for both level sets", valid, json.dumps(cfg))
